@@ -161,4 +161,23 @@ NoOrphan == phase = "boundary" =>
               \A s \in Slots : (s < used /\ ~freed[s] /\ rc[s] = 0) => Contains(pending, s)
 NoUnderflow == \A s \in Slots : rc[s] >= 0
 ContentStable == [][\A s \in Slots : (content'[s] # content[s]) => (freed[s] \/ s >= used)]_vars
+
+(***************************************************************************)
+(* The inductive invariant of HeapInd.tla (proved there with Apalache for   *)
+(* behaviours of any length) read on THIS module's state: the abstraction   *)
+(* maps the pool and the queue to their element sets.  TLC checks it here   *)
+(* on every reachable state, which ties the two modules together.           *)
+(***************************************************************************)
+RefsTo(s) == LET Sum[R \in SUBSET Roots] == IF R = {} THEN 0
+                                              ELSE LET r == CHOOSE r \in R : TRUE IN roots[r][s] + Sum[R \ {r}]
+             IN Sum[Roots]
+IndInvOnHeap ==
+  /\ \A s \in Slots :
+       /\ hand[s] >= 0
+       /\ rc[s] = RefsTo(s)
+       /\ freed[s] => (rc[s] = 0 /\ hand[s] = 0 /\ s < used /\ ~Contains(pending, s))
+       /\ (s >= used) => (rc[s] = 0 /\ hand[s] = 0 /\ ~freed[s] /\ ~Contains(pending, s))
+       /\ (s < used /\ ~freed[s] /\ rc[s] = 0) => (hand[s] > 0 \/ Contains(pending, s))
+  /\ {s \in Slots : freed[s]} = ToSet(free)
+  /\ (phase = "boundary") => \A s \in Slots : hand[s] = 0
 =============================================================================
